@@ -8,12 +8,34 @@ of every enumerated case independent modifiers are drawn from the case rng (cont
 configuration, watchdog time scale, priority arithmetic, validation verdict, a re-registration of a
 resource while it is held, read-only API calls interleaved everywhere, a second differently
 configured instance used alternately, a case-differing resource id held by a bystander, mutation of
-the request list after the call started). After the enumeration come long single-instance sessions
-(> 20 000 operations each) judged by the same obligations.
+the request list after the call started). Long single-instance sessions (> 20 000 operations each) judged by the
+same obligations run first.
+
+Round 4 adds, again as independent modifiers with their own rng stream: the shape of the user callables (optional / variadic extra
+parameters, callable objects, FALSY callable objects, partials, bound methods, Mocks) x the exception type they raise; the request
+handed over as tuple / generator / iterator / map / filter / deque / dict view / str subclasses / None; watchdog limit assigned or
+withdrawn after construction; the preemption flag assigned in place on the registered lock; the checkpoint table replaced from inside
+work; work results that look like the library's own result objects; bool / Fraction / Decimal priorities; the session continued on a
+copy.deepcopy / copy.copy of the system (the original must stay untouched); a process time zone far from UTC (with a 26 h step of the
+local clock at the watchdog expiry) and a maintenance run before anything is overdue; resource / agent ids with braces, %, regex
+metacharacters, NUL, newline and lone surrogates under a strict UTF-8 stdout; follow-ups that drive an operation by hand through the
+controller API, break a two-operation deadlock, call the rarely used waiter / priority / dependency-graph methods and queue 70-130
+distinct waiters behind one holder; and a sample of the enumeration in a child interpreter started with -O.
 """
+import collections
+import contextlib
+import copy
+import functools
+import gc
+import io
+import json
 import math
+import os
+import subprocess
 import sys
 import time as _rtime
+from decimal import Decimal
+from fractions import Fraction
 
 from rv import core
 from rv.vclock import VClock, patched
@@ -34,13 +56,25 @@ RULE = ("enumeration: preemption mask (4) x request lists of length <= 3 (quick)
         "read-only API calls at every callback and between calls, a second differently configured instance with the same ids, a bystander holding a case-differing id, request list mutated from inside work "
         "+ seeded follow-ups (second operation reusing ids, holder complete/abort/manual kill/watchdog, shutdown, re-registration, reads) and a final shutdown of every case; 1 case in 7 goes through IntegratedCell; "
         "+ long sessions (quick 2 x 38 000, thorough 6 x 45 000 steps on one instance: > 25 000 coordinated operations and > 20 000 distinct operation ids each); "
+        "+ round-4 modifiers: callable shapes (plain | optional extra positional | *args/**kwargs | keyword-only optional | callable object | falsy callable object (__len__ 0 / __bool__ False) | partial | bound method | Mock) for work, validate and the injected checkpoint condition "
+        "x raised exception type (the shared family | TypeError incl. one that reads like a signature mismatch, TimeoutError, KeyError, AssertionError, StopIteration, ...); "
+        "request as list | tuple | generator | iterator | map | filter | deque | dict keys view | list of str subclasses | None when empty; max_operation_time from the constructor | assigned later | withdrawn later; "
+        "allow_preemption assigned in place (bool / int / str / None); checkpoint table replaced from inside work; work result dict | None | exception instance | duck-typed result object | LockResult.BLOCKED | a failed CoordinationResult; "
+        "priorities bool | Fraction | Decimal; deep / shallow copy of the system taking over the session; TZ unset | UTC | UTC+14 | UTC-12 | UTC+5:45 with a 26 h local-clock step at expiry and a maintenance run while nothing is overdue; "
+        "hostile resource / agent ids + strict UTF-8 stdout in 1 case of 4; follow-ups manual step-by-step operation x 7 exit routes, deadlock between two bystanders resolved by maintenance (strategy priority | oldest | unknown | None), "
+        "waiter / priority-inheritance / dependency-graph calls, a shaped second operation, 70 / 130 distinct waiters behind one holder; 1500 (quick) / 5000 (thorough) enumerated cases repeated under python -O; "
         "non-trivial = case has a fault or a contended / repeated / unknown resource; distinct = (mask, list, holder, fault)")
 ASSUMPTIONS = ["'untouched' = owner and hold_count of locks the operation never obtained; waiting lists may change",
                "a kill issued from inside work_fn is a fault point; ownership is sampled before the kill",
                "'validation returning false' covers the falsy verdicts False and 0 (the unchanged tree tests truthiness); truthy non-bool verdicts carry no obligation",
                "a resource id registered again by the USER while it is held is the user's action: that id is exempt from 'untouched', never from 'not owned by the finished operation'",
-               "'raising' = Exception subclasses whose str() works; BaseException-only signals and exceptions with a raising __str__ are not judged",
-               "whether a watchdog configured with a zero timeout kills is not judged (either outcome accepted); an expired positive timeout must kill"]
+               "'raising' = Exception subclasses (those whose own __str__ / __repr__ fail included); BaseException-only signals are not judged",
+               "whether a watchdog configured with a zero timeout kills is not judged (either outcome accepted); an expired positive timeout must kill",
+               "a validate_fn that was supplied (is not None) must have run and accepted before success is reported, whatever its own truth value (falsy callable objects included)",
+               "settings follow their CURRENT value: a watchdog limit assigned to system.watchdog.max_operation_time after construction is enforced, a withdrawn one (None) kills nobody; allow_preemption assigned on the registered lock counts by truthiness",
+               "any iterable of ids is a request list (one-shot iterables included); the library may pass extra arguments to tolerant callables, but still runs work at most once",
+               "a deep copy of a system is an independent system (operations on it never change the original); a shallow copy shares the controller",
+               "which operation a deadlock resolution kills is not judged, only that the victim owns nothing and the survivor keeps its lock"]
 
 RES = ["r1", "r2", "r3"]
 SYMS = ["r1", "r2", "r3", "unknown"]
@@ -94,7 +128,7 @@ def space(tier):
 def plan(tier):
     total, _ = space(tier)
     return {"cases": total + SESSIONS[tier], "shards": 8 if tier == "quick" else 14, "min_nontrivial": 1000,
-            "timeout": 600 if tier == "quick" else 2400, "exhaustive": True, "min_fraction": 1.0,
+            "timeout": 1500 if tier == "quick" else 4800, "exhaustive": True, "min_fraction": 1.0,
             "require": {"execute_calls": total, "work_runs_sampled": 5000, "blocked_acquisitions": 5000, "preemptions": 500,
                         "reentrant_requests": 2000, "checkpoint_faults_hit": 2000, "kills_inside_work": 1000,
                         "followup_ops": 5000, "holder_exits_checked": 3000, "cell_entry": 1000, "nested_operations": 1000,
@@ -105,7 +139,15 @@ def plan(tier):
                         "reregistered_while_held": 1000, "reads_interleaved": 10000, "twin_instances": 5000, "twin_checks": 5000,
                         "bystander_cases": 5000, "odd_priority_cases": 10000, "odd_timeout_cases": 10000,
                         "watchdog_expiry_judged": 1500, "final_shutdowns": 20000, "request_list_mutated": 200,
-                        "session_operations": 9000, "session_holder_exits": 300, "session_distinct_ids": 7000}}
+                        "session_operations": 9000, "session_holder_exits": 300, "session_distinct_ids": 7000,
+                        # round 4
+                        "callable_shapes": 20000, "falsy_validator_cases": 2000, "resources_not_a_list": 20000, "work_raised_under_tolerant_signature": 150,
+                        "work_raised_discriminable_type_under_tolerant_signature": 30, "timezone_cases": 8000, "timezone_steps": 500,
+                        "hostile_name_cases": 6000, "strict_stdout_cases": 6000, "timeout_assigned_after_construction": 8000,
+                        "preemption_flag_assigned_in_place": 3000, "checkpoints_swapped_in_flight": 200, "duplicated_instances": 2000,
+                        "duplicate_checks": 1500, "deadlock_kills_checked": 3000, "manual_operations": 7000, "misc_api_calls": 3000,
+                        "shaped_followups": 3000, "waiter_floods": 1000, "optimized_interpreter_cases": 300, "optimized_interpreter_work_runs": 20,
+                        "optimized_interpreter_blocked": 60}}
 
 
 class Boom(Exception):
@@ -127,6 +169,165 @@ def fresh(s):
     return s[:1] + s[1:] if len(s) > 1 else s
 
 
+class SId(str):
+    """a str subclass: equal to and hashing like the plain id"""
+    __slots__ = ()
+
+
+class CallObj:
+    """a callable OBJECT (not a function); accepts any extra arguments"""
+    def __init__(self, fn):
+        self.fn = fn
+
+    def __call__(self, *a, **k):
+        return self.fn(*a, **k)
+
+    def run(self, *a, **k):
+        return self.fn(*a, **k)
+
+
+class FalsyLen(CallObj):
+    """a callable that is falsy because it is an (empty) collection as well, e.g. a validator that records its failures"""
+    def __len__(self):
+        return 0
+
+
+class FalsyBool(CallObj):
+    def __bool__(self):
+        return False
+
+
+SHAPES = [("plain", 40), ("optpos", 12), ("varargs", 12), ("kwonly_opt", 4), ("callable_obj", 8), ("falsy_len", 5), ("falsy_bool", 5),
+          ("partial", 5), ("bound", 5), ("mock", 4)]
+FALSY_SHAPES = ("falsy_len", "falsy_bool")
+SESSION_SHAPES = [("plain", 40), ("optpos", 20), ("varargs", 20), ("callable_obj", 10), ("partial", 5), ("bound", 5)]
+
+
+def shaped(kind, body, argc, seen=None):
+    """the user callable `body` (taking exactly argc positional arguments) dressed as callable shape `kind`; whatever else the library
+    passes is recorded in `seen` and dropped"""
+    def core_(*a, **k):
+        if seen is not None and (len(a) > argc or k):
+            seen.append((len(a), sorted(k)))
+        return body(*a[:argc])
+    if kind == "plain":
+        return body
+    if kind == "optpos":
+        if argc == 0:
+            def f0(extra=None):
+                return core_() if extra is None else core_(extra)
+            return f0
+
+        def f1(x, extra=None):
+            return core_(x) if extra is None else core_(x, extra)
+        return f1
+    if kind == "varargs":
+        return lambda *a, **k: core_(*a, **k)
+    if kind == "kwonly_opt":
+        if argc == 0:
+            return lambda *, ctx=None, context=None, operation=None: core_()
+        return lambda x, *, ctx=None, context=None, operation=None: core_(x)
+    if kind == "callable_obj":
+        return CallObj(core_)
+    if kind == "falsy_len":
+        return FalsyLen(core_)
+    if kind == "falsy_bool":
+        return FalsyBool(core_)
+    if kind == "partial":
+        return functools.partial(lambda tag, *a, **k: core_(*a, **k), "tag")
+    if kind == "bound":
+        return CallObj(core_).run
+    if kind == "mock":
+        from unittest import mock
+        return mock.Mock(side_effect=core_)
+    raise AssertionError(kind)
+
+
+RES_SHAPES = [("list", 40), ("tuple", 8), ("gen", 10), ("iter", 10), ("map", 6), ("deque", 5), ("dictkeys", 5), ("strsub", 8), ("none_if_empty", 4), ("filter", 4)]
+
+
+def shape_resources(kind, ids):
+    """the request list handed over as another iterable type (one-shot ones included); `ids` itself when kind == 'list'"""
+    if kind == "tuple":
+        return tuple(ids)
+    if kind == "gen":
+        return (r for r in ids)
+    if kind == "iter":
+        return iter(ids)
+    if kind == "map":
+        return map(str, ids)
+    if kind == "filter":
+        return filter(None, ids)
+    if kind == "deque":
+        return collections.deque(ids)
+    if kind == "dictkeys" and len(set(ids)) == len(ids):
+        return dict.fromkeys(ids).keys()
+    if kind == "strsub":
+        return [SId(r) for r in ids]
+    if kind == "none_if_empty" and not ids:
+        return None
+    return ids
+
+
+# exception types a handler could tell apart (retry / fallback / timeout handling / signature probing)
+DISCRIMINABLE = [TypeError, TypeError, TimeoutError, KeyError, AssertionError, StopIteration, AttributeError, ValueError, LookupError,
+                 NotImplementedError, RuntimeError, OSError, IndexError]
+
+
+def pick_exception(rng, index, message):
+    if rng.random() < 0.5:
+        return make_exception(index, message)
+    cls = rng.choice(DISCRIMINABLE)
+    if cls is TypeError and rng.random() < 0.5:
+        return TypeError("work() takes 0 positional arguments but 1 was given")     # a TypeError that reads like a signature mismatch
+    return cls() if rng.random() < 0.3 else cls(message)
+
+
+HOSTILE = {"r1": "r1{0}%s{", "r2": "r2\n\x00(.*)[\\", "r3": "r3\udc80\u00e9%(x)s", "r4": "r4}$^|", "unknown": "unk{}%d\udcff",
+           "d1": "d1{", "d2": "%d2"}
+TZS = ["UTC", "XLO-14", "XLW12", "XNP-5:45"]       # POSIX TZ strings (no tz database needed): UTC+14, UTC-12, UTC+5:45
+
+
+class Duck:
+    """a work result that carries attributes named like the library's own result fields"""
+    success = False
+    error = "blocked"
+    phase_reached = None
+    result = None
+    validation_passed = False
+    execution_complete = False
+
+    def __bool__(self):
+        return False
+
+
+@contextlib.contextmanager
+def environment(tz, strict_stdout):
+    """process-wide settings of one case: the time zone (restored afterwards) and a strict UTF-8 stdout"""
+    old_tz = os.environ.get("TZ")
+    old_out = sys.stdout
+    try:
+        if tz is not None:
+            os.environ["TZ"] = tz
+            _rtime.tzset()
+        if strict_stdout:
+            sys.stdout = io.TextIOWrapper(io.BytesIO(), encoding="utf-8", errors="strict")
+        yield
+    finally:
+        sys.stdout = old_out
+        if tz is not None:
+            if old_tz is None:
+                os.environ.pop("TZ", None)
+            else:
+                os.environ["TZ"] = old_tz
+            _rtime.tzset()
+
+
+def set_tz(tz):
+    os.environ["TZ"] = tz
+    _rtime.tzset()
+
+
 def priorities(scheme, rel):
     """(priority of the judged operation, priority of the pre-existing holder) for holder relation rel in -1/0/+1"""
     if scheme == "int5":
@@ -142,6 +343,14 @@ def priorities(scheme, rel):
         return 0.0, {-1: -5e-324, 0: -0.0, 1: 5e-324}[rel]
     if scheme == "inf":
         return {-1: (float("inf"), 1e308), 0: (float("inf"), float("inf")), 1: (1e308, float("inf"))}[rel]
+    if scheme == "bool":
+        return True, {-1: False, 0: True, 1: 2}[rel]
+    if scheme == "fraction":
+        a = Fraction(1, 3)
+        return a, a + rel * Fraction(1, 10 ** 30)
+    if scheme == "decimal":
+        a = Decimal("0.1")
+        return a, a + rel * Decimal("1e-27")
     if scheme == "nan_op":
         return float("nan"), 5 + rel
     if scheme == "nan_holder":
@@ -159,6 +368,21 @@ def make_checkpoints(kind, Checkpoint, Phase):
 
 
 def run_case(ctx, n):
+    # the long sessions come first (cases 0 .. SESSIONS-1): a run that is cut short by its wall budget has still done them
+    if n < SESSIONS[ctx.tier]:
+        return session_case(ctx, n)
+    n -= SESSIONS[ctx.tier]
+    erng = ctx.rng(n, "environment")
+    tz = pick(erng, [(None, 70), ("XLO-14", 10), ("XLW12", 10), ("XNP-5:45", 4), ("UTC", 6)])
+    env = {"tz": tz, "tz_step": tz is not None and erng.random() < 0.4, "names": pick(erng, [("plain", 75), ("hostile", 25)])}
+    env["strict_stdout"] = (env["names"] == "hostile" or erng.random() < 0.05) and not ctx.verbose
+    if n % 997 == 0:
+        gc.collect()        # what earlier cases dropped is really gone: fresh systems / locks / callables reuse those addresses
+    with environment(tz, env["strict_stdout"]):
+        enum_case(ctx, n, env)
+
+
+def enum_case(ctx, n, env):
     import operon_ai.coordination.controller as cmod
     import operon_ai.coordination.types as tmod
     import operon_ai.coordination.watchdog as wmod
@@ -168,8 +392,6 @@ def run_case(ctx, n):
     from datetime import timedelta
 
     total, L = space(ctx.tier)
-    if n >= total:
-        return session_case(ctx, n - total)
     idx = n
     idx, fi = divmod(idx, len(FAULTS))
     idx, hi = divmod(idx, len(HOLDERS))
@@ -198,10 +420,40 @@ def run_case(ctx, n):
     mutate_clear = rng.random() < 0.5
     maskstyle = rng.choice(["bool", "bool", "int", "sparse"])
     extra_timeouts = rng.random() < 0.15
+    # ---- round-4 modifiers (their own stream: the draws above stay what they were)
+    r4 = ctx.rng(n, "r4")
+    wshape = pick(r4, SHAPES)
+    vshape = pick(r4, SHAPES)
+    cshape = pick(r4, SHAPES[:5])
+    rshape = pick(r4, RES_SHAPES)
+    if r4.random() < 0.25:
+        scheme = pick(r4, [("bool", 1), ("fraction", 1), ("decimal", 1)])
+    tmo_assign = pick(r4, [("ctor", 70), ("assigned_later", 15), ("withdrawn_later", 15)])
+    if fault == "watchdog_in_g0_cp" and tmo_assign == "withdrawn_later":
+        tmo_assign = "assigned_later"       # (that fault point's acquisition model depends on whether the kill happens)
+    tmo_assign_when = r4.choice(["post_build", "pre_call"])
+    toggle = {"res": r4.choice(RES), "point": r4.choice(["pre", "pre", "work"])} if r4.random() < 0.15 else None
+    cp_swap = r4.choice(["empty", "s_fails", "g2_raises", "m_fails"]) if r4.random() < 0.06 else None
+    dup = pick(r4, [("deep", 7), ("shallow", 3)]) if r4.random() < 0.08 else None
+    result_kind = pick(r4, [("dict", 60), ("none", 6), ("exc_instance", 8), ("duck", 10), ("lockresult", 8), ("coordresult", 8)])
+    hostile = env["names"] == "hostile"
+    AGENT = "agent{0}%s\n\udc80" if hostile else "agent-a"
+    opid = (lambda: SId("op")) if r4.random() < 0.2 else (lambda: fresh("op"))
+
+    def rid(sym):
+        if sym == "R1":
+            return rid("r1").upper()
+        return HOSTILE.get(sym, sym) if hostile else sym
+    eff_tmo = "none" if tmo_assign == "withdrawn_later" else tmo
     tmo_td, adv = {"100s": (timedelta(seconds=100), 1000.0), "subsecond": (timedelta(seconds=0.25), 0.9),
                    "multiday": (timedelta(days=1, seconds=100), 2 * 86400 + 50.0), "none": (None, 1000.0), "zero": (timedelta(0), 1000.0)}[tmo]
-    wd_kills = tmo in ("100s", "subsecond", "multiday")
-    wd_unjudged = tmo == "zero"
+    ctor_td = tmo_td
+    if tmo_assign == "assigned_later":
+        ctor_td = r4.choice([None, timedelta(days=400), timedelta(0), timedelta(seconds=3)])
+    if tmo_assign == "withdrawn_later":
+        tmo_td = None
+    wd_kills = eff_tmo in ("100s", "subsecond", "multiday")
+    wd_unjudged = eff_tmo == "zero"
     clock = VClock()   # real 'now' as base: dataclass default factories captured the real utcnow
     rel = holder[1] if holder else 0
     OP_PRIO, H_PRIO = priorities(scheme, rel)
@@ -209,10 +461,21 @@ def run_case(ctx, n):
         ctx.count("odd_priority_cases")
     if tmo != "100s":
         ctx.count("odd_timeout_cases")
+    if tmo_assign != "ctor":
+        ctx.count("timeout_assigned_after_construction")
+    if env["tz"] is not None:
+        ctx.count("timezone_cases")
+    if hostile:
+        ctx.count("hostile_name_cases")
+    if env["strict_stdout"]:
+        ctx.count("strict_stdout_cases")
     desc = {"preemptable": {"r1": mask[0], "r2": mask[1], "r3": False}, "request": req, "holder": holder, "fault": fault,
             "entry": "IntegratedCell.execute" if use_cell else "CoordinationSystem.execute_operation", "followups": [],
             "checkpoints": cfg, "max_operation_time": tmo, "priorities": [scheme, repr(OP_PRIO), repr(H_PRIO)], "validation": vmode,
-            "reregister": rereg, "reads": reads, "twin": twin_on, "bystander": bystander, "mask_style": maskstyle}
+            "reregister": rereg, "reads": reads, "twin": twin_on, "bystander": bystander, "mask_style": maskstyle,
+            "work_shape": wshape, "validate_shape": vshape, "condition_shape": cshape, "resources_shape": rshape,
+            "timeout_assignment": [tmo_assign, tmo_assign_when], "toggle": toggle, "checkpoints_swapped_in_work": cp_swap, "duplicate": dup,
+            "result": result_kind, "environment": env}
 
     def viol(mech, what):
         ctx.violation(mech, what, desc)
@@ -224,11 +487,11 @@ def run_case(ctx, n):
             return None
         return bool(b)
 
-    def register(target, rid, b):
+    def register(target, sym, b):
         if maskstyle == "sparse" and not b and rng.random() < 0.5:
-            target.register_resource(rid)               # the default of the optional parameter
+            target.register_resource(rid(sym))               # the default of the optional parameter
         else:
-            target.register_resource(rid, flagval(b))
+            target.register_resource(rid(sym), flagval(b))
 
     def build(as_cell, kind, td, **kw):
         cps = make_checkpoints(kind, Checkpoint, Phase)
@@ -254,7 +517,16 @@ def run_case(ctx, n):
         kw = {}
         if extra_timeouts and not use_cell:
             kw = {"starvation_timeout": timedelta(seconds=rng.choice([0.5, 50, 90000])), "progress_timeout": timedelta(seconds=rng.choice([0.5, 50, 90000]))}
-        cell, system = build(use_cell, cfg, tmo_td, **kw)
+            if r4.random() < 0.5:
+                from operon_ai.coordination.priority import PriorityInheritance
+                kw["priority_manager"] = PriorityInheritance()
+        cell, system = build(use_cell, cfg, ctor_td, **kw)
+
+        def assign_timeout():
+            # a public setting of a public component, assigned after construction: the obligation follows the current value
+            system.watchdog.max_operation_time = tmo_td
+        if tmo_assign != "ctor" and tmo_assign_when == "post_build":
+            assign_timeout()
         if use_cell:
             ctx.count("cell_entry")
         if cfg != "default":
@@ -269,9 +541,9 @@ def run_case(ctx, n):
         if bystander:
             # a live bystander holds a resource whose id differs from r1 only in case; nobody ever requests it
             ctx.count("bystander_cases")
-            front.register_resource("R1", True)
+            front.register_resource(rid("R1"), True)
             xctx = system.start_operation("X", "agent-x", priority=-1)
-            ctl.acquire_resource(xctx, "R1")
+            ctl.acquire_resource(xctx, rid("R1"))
             ALL = RES + ["R1"]
         # ---- a second instance, configured differently, with the same resource / operation ids
         twin = tcell = None
@@ -279,19 +551,19 @@ def run_case(ctx, n):
             ctx.count("twin_instances")
             tcell, twin = build(rng.random() < 0.3, rng.choice(["default", "custom_full", "g2_empty"]), timedelta(seconds=7))
             tfront = tcell if tcell is not None else twin
-            tfront.register_resource("r1", not mask[0])
-            tfront.register_resource("r2", not mask[1])
-            tfront.register_resource("r3", True)
-            tfront.register_resource("r4", True)
-            t_op = twin.start_operation("op", "agent-a", priority=9)
-            twin.controller.acquire_resource(t_op, "r1")
-            twin.controller.acquire_resource(t_op, "r4")
+            tfront.register_resource(rid("r1"), not mask[0])
+            tfront.register_resource(rid("r2"), not mask[1])
+            tfront.register_resource(rid("r3"), True)
+            tfront.register_resource(rid("r4"), True)
+            t_op = twin.start_operation("op", AGENT, priority=9)
+            twin.controller.acquire_resource(t_op, rid("r1"))
+            twin.controller.acquire_resource(t_op, rid("r4"))
             t_h = twin.start_operation("H", "agent-h", priority=9)
-            twin.controller.acquire_resource(t_h, "r2")
+            twin.controller.acquire_resource(t_h, rid("r2"))
 
         def twin_state():
             tc = twin.controller
-            return ({r: (tc.resources[r].owner, tc.resources[r].hold_count) for r in RES + ["r4"]}, sorted(tc.active_operations))
+            return ({r: (tc.resources[rid(r)].owner, tc.resources[rid(r)].hold_count) for r in RES + ["r4"]}, sorted(tc.active_operations))
 
         def twin_unchanged(t0, when):
             ctx.count("twin_checks")
@@ -307,15 +579,40 @@ def run_case(ctx, n):
             hres = holder[0]
             hctx = system.start_operation("H", "agent-h", priority=H_PRIO)
             for r in hres:
-                ctl.acquire_resource(hctx, fresh(r))
+                ctl.acquire_resource(hctx, fresh(rid(r)))
+        # ---- object protocols: the session continues on a duplicate of the system; the original must not be touched any more
+        orig = None
+        if dup is not None:
+            ctx.count("duplicated_instances")
+            if dup == "deep":
+                orig = system
+                if cell is not None:
+                    cell = copy.deepcopy(cell)
+                    system = cell.coordination
+                else:
+                    system = copy.deepcopy(system)
+                hctx = system.controller.active_operations.get("H") if hctx is not None else None
+            elif cell is None:
+                system = copy.copy(system)          # a shallow copy shares the controller: same locks, same obligations
+            ctl = system.controller
+            front = cell if cell is not None else system
+
+        def orig_state():
+            oc = orig.controller
+            return ({k_: (lk.owner, lk.hold_count) for k_, lk in oc.resources.items()}, sorted(oc.active_operations))
+        orig_before = orig_state() if orig is not None else None
         # ---- fault wiring
         log = []
         sampled = {}
         reregd = set()
+        extra_args = []
+
+        def lock_of(sym):
+            return ctl.resources[rid(sym)]
 
         def snap():
             res_ = ctl.resources
-            return {r: ((res_[r].owner, res_[r].hold_count) if r in res_ else ("<not registered>", 0)) for r in ALL}
+            return {r: ((res_[rid(r)].owner, res_[rid(r)].hold_count) if rid(r) in res_ else ("<not registered>", 0)) for r in ALL}
 
         def do_reads(where):
             if not reads:
@@ -359,22 +656,33 @@ def run_case(ctx, n):
                     desc.setdefault("read_errors", []).append("%s:%d:%r" % (where, which, e))
 
         def do_rereg(where):
-            rid = rereg["res"]
-            cur = bool(ctl.resources[rid].allow_preemption)
+            rsym = rereg["res"]
+            cur = bool(lock_of(rsym).allow_preemption)
             new = (not cur) if rereg["flip"] else cur
             ctx.count("reregistrations")
-            if ctl.resources[rid].owner is not None:
+            if lock_of(rsym).owner is not None:
                 ctx.count("reregistered_while_held")
-            front.register_resource(fresh(rid), flagval(new))
-            desc["preemptable"][rid] = new
+            front.register_resource(fresh(rid(rsym)), flagval(new))
+            desc["preemptable"][rsym] = new
             if where != "pre":
-                reregd.add(rid)
+                reregd.add(rsym)
+
+        def do_toggle():
+            # the public flag of the registered lock object assigned in place (no new lock): the obligation follows the current value
+            ctx.count("preemption_flag_assigned_in_place")
+            lk = lock_of(toggle["res"])
+            new = not bool(lk.allow_preemption)
+            lk.allow_preemption = r4.choice([new, int(new), "yes" if new else "", new or None])
+            desc["preemptable"][toggle["res"]] = new
 
         def shutdown():
             (cell.shutdown() if cell is not None else system.shutdown())
 
         def expire_and_maintain(via_cell_ok=True):
             clock.advance(adv)
+            if env["tz_step"]:
+                ctx.count("timezone_steps")
+                set_tz("XLW12" if env["tz"] != "XLW12" else "XLO-14")      # the local clock jumps by 26 h; UTC does not
             sampled["slack_ok"] = (_rtime.time() - clock.base) < 0.5 * (adv - (tmo_td.total_seconds() if tmo_td else 0.0))
             if cell is not None and via_cell_ok:
                 cell.run_maintenance()
@@ -394,7 +702,7 @@ def run_case(ctx, n):
                 if kind.endswith("raise_empty"):
                     raise Boom()
                 if kind.endswith("raise"):
-                    raise make_exception(n + 5, "checkpoint exploded")
+                    raise pick_exception(r4, n + 5, "checkpoint exploded")
                 if kind.startswith("kill_in"):
                     if "killed" not in sampled:
                         sampled["killed"] = True
@@ -420,12 +728,18 @@ def run_case(ctx, n):
         if fault.endswith("_cp"):
             ph = phase_of[fault.split("_")[2]]
         if ph is not None:
-            ctl.checkpoints[ph] = list(ctl.checkpoints.get(ph, [])) + [Checkpoint(phase=ph, condition=cp_fault(fault), name="injected")]
-        req_obj = [fresh(r) for r in req]
+            ctl.checkpoints[ph] = list(ctl.checkpoints.get(ph, [])) + [Checkpoint(phase=ph, condition=shaped(cshape, cp_fault(fault), 1, extra_args), name="injected")]
+        req_obj = [fresh(rid(r)) for r in req]
+        results = {"dict": RESULT, "none": None, "exc_instance": ValueError("returned, not raised"), "duck": Duck(),
+                   "lockresult": tmod.LockResult.BLOCKED, "coordresult": None}
+        if result_kind == "coordresult":
+            from operon_ai.coordination.system import CoordinationResult
+            results["coordresult"] = CoordinationResult(operation_id="op", success=False, phase_reached=Phase.G1, error="Blocked on resource r1")
+        work_result = results[result_kind]
 
         def work():
             log.append("work")
-            sampled["own"] = {r: ctl.resources[r].owner for r in RES}
+            sampled["own"] = {r: lock_of(r).owner for r in RES}
             sampled["active"] = "op" in ctl.active_operations
             ctx.count("work_runs_sampled")
             do_reads("work")
@@ -433,23 +747,41 @@ def run_case(ctx, n):
                 ctx.count("nested_operations")
                 if fault == "nested_preempts":
                     # an inner operation of higher priority asks for the outer operation's own resources (+ r4)
-                    inner = system.execute_operation("inner", "agent-i", lambda: RESULT, resources=[fresh(r) for r in req] + ["r4"],
+                    inner = system.execute_operation("inner", "agent-i", lambda: RESULT, resources=[fresh(rid(r)) for r in req] + [rid("r4")],
                                                      priority=OP_PRIO + 1 if isinstance(OP_PRIO, int) else OP_PRIO)
                 else:
-                    inner = system.execute_operation("inner", "agent-i", lambda: "inner-result", resources=["r4"], priority=OP_PRIO)
+                    inner = system.execute_operation("inner", "agent-i", lambda: "inner-result", resources=shape_resources(rshape, [rid("r4")]), priority=OP_PRIO)
                 sampled["inner_success"] = inner.success
             if rereg and rereg["point"] == "work":
                 do_rereg("work")
+            if toggle and toggle["point"] == "work":
+                do_toggle()
+            if cp_swap is not None:
+                # the user replaces the public checkpoint table in mid-flight
+                ctx.count("checkpoints_swapped_in_flight")
+                if cp_swap == "empty":
+                    ctl.checkpoints = {}
+                elif cp_swap == "s_fails":
+                    ctl.checkpoints = {Phase.S: [Checkpoint(phase=Phase.S, condition=lambda c_: False, name="late-s")]}
+                elif cp_swap == "g2_raises":
+                    ctl.checkpoints = {Phase.G2: (Checkpoint(phase=Phase.G2, condition=lambda c_: 1 // 0, name="late-g2"),)}
+                else:
+                    ctl.checkpoints[Phase.M] = [Checkpoint(phase=Phase.M, condition=lambda c_: None, name="late-m")]
             if mutate_req:
                 ctx.count("request_list_mutated")
                 if mutate_clear:
                     del req_obj[:]
                 else:
-                    req_obj.append("unknown")
+                    req_obj.append(rid("unknown"))
             if fault == "work_raises_empty":
                 raise Boom()            # an exception without a message
             if fault in ("work_raises", "nested_work_raises"):
-                raise make_exception(n, "work failed")
+                exc = pick_exception(r4, n, "work failed")
+                if wshape not in ("plain", "kwonly_opt"):
+                    ctx.count("work_raised_under_tolerant_signature")
+                    if isinstance(exc, (TypeError, TimeoutError, KeyError, AssertionError, StopIteration)):
+                        ctx.count("work_raised_discriminable_type_under_tolerant_signature")
+                raise exc
             if fault == "kill_in_work":
                 ctx.count("kills_inside_work")
                 system.kill_operation(fresh("op"), "killed from inside")
@@ -459,7 +791,7 @@ def run_case(ctx, n):
             if fault == "watchdog_in_work":
                 ctx.count("kills_inside_work")
                 expire_and_maintain()
-            return 0 if fault == "work_falsy" else RESULT
+            return 0 if fault == "work_falsy" else work_result
 
         def validate(res):
             log.append("validate")
@@ -478,14 +810,32 @@ def run_case(ctx, n):
             if vmode == "raises_empty":
                 raise ValueError()
             if vmode == "assert":
-                assert res is None      # a bare assert: AssertionError without a message
+                raise AssertionError()      # what a failing bare assert raises (spelled out: the harness also runs under python -O)
             if vmode == "raises":
-                raise make_exception(n + 3, "validator exploded")
+                raise pick_exception(r4, n + 3, "validator exploded")
             return {"true": True, "truthy": "accepted", "false": False, "zero": 0}[vmode]
 
         if rereg and rereg["point"] == "pre":
             do_rereg("pre")         # the holder (if it held that id) keeps an orphaned lock object; the registered one is new
+        if toggle and toggle["point"] == "pre":
+            do_toggle()
+        if tmo_assign != "ctor" and tmo_assign_when == "pre_call":
+            assign_timeout()
         do_reads("pre")
+        if env["tz"] is not None and clock.offset == 0 and eff_tmo != "zero":
+            # nothing is overdue yet, wherever the process believes it is on the globe: maintenance must leave every holder alone
+            ctx.count("maintenance_without_expiry")
+            b0 = snap()
+            act0 = sorted(ctl.active_operations)
+            try:
+                (cell.run_maintenance() if cell is not None and r4.random() < 0.5 else system.run_maintenance())
+            except Exception as e:
+                viol("followup-raises:maintenance", "run_maintenance raised %r" % (e,))
+                return
+            if snap() != b0 or sorted(ctl.active_operations) != act0:
+                viol("untouched-resource-changed:maintenance", "maintenance with nothing overdue (max_operation_time %s, virtual clock not advanced, TZ %s) changed ownership %s -> %s, active %s -> %s" % (
+                    eff_tmo, env["tz"], b0, snap(), act0, sorted(ctl.active_operations)))
+                return
         # ---- model: which acquisitions succeed
         before = snap()
         twin_before = twin_state() if twin is not None else None
@@ -514,13 +864,19 @@ def run_case(ctx, n):
                 ctx.count("blocked_acquisitions")
                 break
         ctx.count("execute_calls")
-        vf = None if vmode == "absent" else validate
+        vf = None if vmode == "absent" else shaped(vshape, validate, 1, extra_args)
+        wf = shaped(wshape, work, 0, extra_args)
+        res_arg = shape_resources(rshape, req_obj)
+        if res_arg is not req_obj:
+            ctx.count("resources_not_a_list")
+        if wshape != "plain" or (vf is not None and vshape != "plain"):
+            ctx.count("callable_shapes")
         try:
             if cell is not None:
-                cres = cell.execute("agent-a", fresh("op"), work, resources=req_obj, validate_fn=vf, priority=OP_PRIO)
+                cres = cell.execute(AGENT, opid(), wf, resources=res_arg, validate_fn=vf, priority=OP_PRIO)
                 success = cres.success
             else:
-                res = system.execute_operation(fresh("op"), "agent-a", work, resources=req_obj, validate_fn=vf, priority=OP_PRIO)
+                res = system.execute_operation(opid(), AGENT, wf, resources=res_arg, validate_fn=vf, priority=OP_PRIO)
                 success = res.success
         except BaseException as e:
             viol("execute-raises", "execute raised %r" % (e,))
@@ -538,9 +894,9 @@ def run_case(ctx, n):
                 mech = "reentrant-hold-leak" if obtained.get(r, 0) > 1 else "resource-leak:%s" % path
                 viol(mech, "%s still owned by the finished operation (hold_count %d) after exit path %s" % (r, after[r][1], path))
                 return
-        if ctl.resources["r4"].owner is not None or "inner" in ctl.active_operations or any(after[r][0] == "inner" for r in RES):
+        if lock_of("r4").owner is not None or "inner" in ctl.active_operations or any(after[r][0] == "inner" for r in RES):
             viol("resource-leak:nested-operation", "nested operation left %s owned / active=%s" % (
-                [r for r in RES + ["r4"] if ctl.resources[r].owner == "inner"], "inner" in ctl.active_operations))
+                [r for r in RES + ["r4"] if lock_of(r).owner == "inner"], "inner" in ctl.active_operations))
             return
         if "op" in ctl.active_operations:
             viol("still-active:%s" % path, "operation still listed as active after exit path %s" % path)
@@ -563,10 +919,15 @@ def run_case(ctx, n):
             ctx.count("watchdog_expiry_judged")
             for oid in ("H", "X"):
                 if oid in ctl.active_operations:
-                    viol("watchdog-timeout-not-enforced", "operation %s exceeded max_operation_time (%s, clock advanced %s s) and is still active after maintenance" % (oid, tmo, adv))
+                    viol("watchdog-timeout-not-enforced", "operation %s exceeded max_operation_time (%s, clock advanced %s s) and is still active after maintenance" % (oid, eff_tmo, adv))
                     return
         if twin is not None and not twin_unchanged(twin_before, "the judged operation"):
             return
+        if orig is not None:
+            ctx.count("duplicate_checks")
+            if orig_state() != orig_before:
+                viol("other-instance-touched", "an operation on a deep copy of the system changed the original: %s -> %s" % (orig_before, orig_state()))
+                return
         # 3. work / validate discipline
         nwork, nval = log.count("work"), log.count("validate")
         if nwork > 1:
@@ -600,8 +961,16 @@ def run_case(ctx, n):
             if fault in ("kill_in_work", "shutdown_in_work", "watchdog_in_work", "kill_in_validate", "shutdown_in_validate", "watchdog_in_validate",
                          "kill_in_s_cp"):
                 ctx.count("rejected_after_kill")
+        if extra_args:
+            ctx.count("callbacks_called_with_extra_arguments")
+        if vf is not None and vshape in FALSY_SHAPES:
+            ctx.count("falsy_validator_cases")
         if success:
             ok = nwork == 1 and fault not in WORK_EXC and (vf is None or (nval == 1 and val_ok))
+            if nwork == 1 and fault not in WORK_EXC and vf is not None and nval == 0 and vshape in FALSY_SHAPES:
+                viol("success-without-work-and-validation:falsy_validator_skipped",
+                     "success reported although the supplied validate_fn (a callable object whose truth value is False: %s) was never called; log %s" % (vshape, log))
+                return
             if not ok:
                 key = fault if (val_ok or fault in VMODE_OF_FAULT) else "%s+validate_%s" % (fault, vmode)
                 viol("success-without-work-and-validation:%s" % key, "success reported with log %s under fault %s, validation verdict %s, checkpoints %s" % (log, fault, vmode, cfg))
@@ -610,10 +979,17 @@ def run_case(ctx, n):
                 viol("success-without-resources", "success reported although acquisition stopped (%s)" % stopped)
                 return
         # ---- follow-ups
-        for k in range(rng.randint(0, 3)):
+        fplan = ["old"] * rng.randint(0, 3)
+        if r4.random() < 0.45:
+            for _ in range(r4.randint(1, 2)):
+                fplan.insert(r4.randint(0, len(fplan)), "new")
+        for fkind in fplan:
             ctx.count("followup_ops")
-            choice = rng.choice(["op2", "holder_complete", "holder_abort", "holder_kill", "watchdog", "shutdown", "op_again", "k_hold", "k_hold",
-                                 "holder_release_one", "holder_release_one", "reregister", "reads"])
+            if fkind == "old":
+                choice = rng.choice(["op2", "holder_complete", "holder_abort", "holder_kill", "watchdog", "shutdown", "op_again", "k_hold", "k_hold",
+                                     "holder_release_one", "holder_release_one", "reregister", "reads"])
+            else:
+                choice = "waiters_flood" if r4.random() < 0.06 else r4.choice(["manual_op", "manual_op", "deadlock", "api_misc", "op_shaped"])
             desc["followups"].append(choice)
             b2 = snap()
             tb2 = twin_state() if twin is not None else None
@@ -625,13 +1001,161 @@ def run_case(ctx, n):
                         return
                     continue
                 if choice == "reregister":
-                    rid = rng.choice(RES)
+                    rsym = rng.choice(RES)
                     ctx.count("reregistrations")
-                    if ctl.resources[rid].owner is not None:
+                    if lock_of(rsym).owner is not None:
                         ctx.count("reregistered_while_held")
                     newflag = rng.random() < 0.5
-                    front.register_resource(rid, newflag)
-                    desc["followups"][-1] = "reregister:%s:%s" % (rid, newflag)
+                    front.register_resource(rid(rsym), newflag)
+                    desc["followups"][-1] = "reregister:%s:%s" % (rsym, newflag)
+                    continue
+                if choice == "waiters_flood":
+                    # many distinct operations queue up behind one live holder: every one of them must end blocked, without running
+                    cands = [r for r in RES if b2[r][0] is not None and not (lock_of(r).allow_preemption and -10 > lock_of(r).owner_priority)]
+                    if not cands:
+                        continue
+                    rsym = r4.choice(cands)
+                    ctx.count("waiter_floods")
+                    nflood = r4.choice([70, 130])
+                    desc["followups"][-1] = "waiters_flood:%s:%d" % (rsym, nflood)
+                    for j in range(nflood):
+                        ran = []
+                        rw = system.execute_operation("w%d" % j, AGENT, lambda: ran.append(1) or RESULT, resources=[rid(rsym)], priority=-10)
+                        if ran or rw.success:
+                            viol("work-without-resources:blocked", "waiter %d of %d queued behind the live holder %s of %s ran its work (runs %d, success %s)" % (
+                                j + 1, nflood, b2[rsym][0], rsym, len(ran), rw.success))
+                            return
+                    if snap() != b2 or any(("w%d" % j) in ctl.active_operations for j in range(nflood)):
+                        viol("untouched-resource-changed:blocked", "%d blocked waiters changed ownership %s -> %s" % (nflood, b2, snap()))
+                        return
+                    continue
+                if choice == "api_misc":
+                    # rarely used public methods; none of them may change who owns what
+                    ctx.count("misc_api_calls")
+                    act_b = sorted(ctl.active_operations)
+                    for lk in list(ctl.resources.values()):
+                        if r4.random() < 0.5:
+                            lk.pop_next_waiter()
+                    system.priority_manager.check_and_boost(ctl)
+                    for c_ in list(ctl.active_operations.values()):
+                        system.priority_manager.restore_priority(c_)
+                    system.watchdog.check(ctl)
+                    ctl.check_deadlock()
+                    g = ctl.dependency_graph
+                    g.get_blocking_chain("H")
+                    g.remove_dependency("op", "H")
+                    g.add_dependency("ghost", "H", rid("r1"))
+                    g.remove_all_for_agent("ghost")
+                    if r4.random() < 0.3:
+                        g.clear()
+                    system.priority_manager.clear_all(ctl)
+                    if snap() != b2 or sorted(ctl.active_operations) != act_b:
+                        viol("untouched-resource-changed:api_misc", "waiter / priority / dependency-graph calls changed ownership %s -> %s, active %s -> %s" % (
+                            b2, snap(), act_b, sorted(ctl.active_operations)))
+                        return
+                    continue
+                if choice == "deadlock":
+                    # two live operations block each other; maintenance kills one of them: the victim must own nothing, the survivor keeps its lock
+                    if "D1" in ctl.active_operations or "D2" in ctl.active_operations or clock.offset != 0 or wd_unjudged:
+                        continue
+                    ctx.count("deadlock_kills_checked")
+                    system.watchdog.deadlock_strategy = r4.choice(["priority", "oldest", "newest", None])
+                    front.register_resource(rid("d1"), r4.random() < 0.3)
+                    front.register_resource(rid("d2"))
+                    pr = r4.choice([(3, 3), (2, 8), (8, 2)])
+                    d1 = system.start_operation("D1", "agent-d", priority=pr[0])
+                    d2 = system.start_operation("D2", "agent-d", priority=pr[1])
+                    ctl.acquire_resource(d1, rid("d1"))
+                    ctl.acquire_resource(d2, rid("d2"))
+                    ctl.acquire_resource(d1, rid("d2"))
+                    ctl.acquire_resource(d2, rid("d1"))
+                    mid = {s_: (ctl.resources[rid(s_)].owner, ctl.resources[rid(s_)].hold_count) for s_ in ("d1", "d2")}
+                    desc["followups"][-1] = "deadlock:%s:%s" % (pr, mid)
+                    (cell.run_maintenance() if cell is not None and r4.random() < 0.5 else system.run_maintenance())
+                    a2 = snap()
+                    if a2 != b2:
+                        viol("untouched-resource-changed:deadlock", "breaking a deadlock between two other operations changed %s -> %s" % (b2, a2))
+                        return
+                    for did in ("D1", "D2"):
+                        held = [s_ for s_ in ("d1", "d2") if ctl.resources[rid(s_)].owner == did]
+                        if did not in ctl.active_operations and held:
+                            viol("resource-leak:watchdog", "deadlock victim %s is no longer active but still owns %s" % (did, held))
+                            return
+                        if did in ctl.active_operations:
+                            lost = [s_ for s_ in ("d1", "d2") if mid[s_][0] == did and (ctl.resources[rid(s_)].owner, ctl.resources[rid(s_)].hold_count) != mid[s_]]
+                            if lost:
+                                viol("exit-touches-foreign-lock:deadlock", "operation %s survived the deadlock resolution but its lock(s) %s changed: %s" % (did, lost, mid))
+                                return
+                    continue
+                if choice in ("manual_op", "op_shaped"):
+                    mid_ = "M" if choice == "manual_op" else "op3"
+                    if mid_ in ctl.active_operations:
+                        continue
+                    req2 = [r4.choice(SYMS[:3]) for _ in range(r4.randint(0, 3))]
+                    ran = []
+                    if choice == "op_shaped":
+                        ctx.count("shaped_followups")
+                        sh = pick(r4, RES_SHAPES)
+                        exc2 = pick_exception(r4, n + 11, "follow-up work failed") if r4.random() < 0.5 else None
+
+                        def work2():
+                            ran.append(1)
+                            if exc2 is not None:
+                                raise exc2
+                            return work_result
+                        r2 = system.execute_operation(SId(mid_), AGENT, shaped(pick(r4, SHAPES), work2, 0), resources=shape_resources(sh, [fresh(rid(r)) for r in req2]),
+                                                      validate_fn=shaped(pick(r4, SHAPES[:5] + SHAPES[7:]), lambda res_: True, 1), priority=r4.choice([1, 5, 9, True] + ([Fraction(11, 2)] if scheme != "decimal" else [])))
+                        how = "execute:%s" % sh
+                        if len(ran) > 1:
+                            viol("work-ran-twice", "follow-up work ran %d times" % len(ran))
+                            return
+                        if r2.success and (exc2 is not None or len(ran) != 1):
+                            viol("success-without-work-and-validation:followup", "follow-up operation reported success, work runs %d, work raised %r" % (len(ran), exc2))
+                            return
+                    else:
+                        # an operation driven step by step through the controller's public API
+                        ctx.count("manual_operations")
+                        mctx = system.start_operation("M", AGENT, priority=r4.choice([1, 5, 9]))
+                        ctl.advance(mctx)
+                        for r in req2:
+                            if ctl.acquire_resource(mctx, fresh(rid(r))).value == "blocked":
+                                break
+                        mctx.resources_acquired = True
+                        ctl.advance(mctx)
+                        how = r4.choice(["complete", "abort", "kill", "watchdog_kill", "release_all+complete", "release_each+abort", "shutdown_like"])
+                        if how == "complete":
+                            mctx.set_result(RESULT)
+                            mctx.execution_complete = True
+                            ctl.advance(mctx)
+                            ctl.complete_operation(mctx)
+                        elif how == "abort":
+                            ctl.abort_operation(mctx, reason="manual")
+                        elif how == "kill":
+                            system.kill_operation("M")
+                        elif how == "watchdog_kill":
+                            system.watchdog.manual_kill(ctl, SId("M"), reason="direct")
+                        elif how == "release_all+complete":
+                            ctl.release_all_resources(mctx)
+                            ctl.complete_operation(mctx)
+                        elif how == "release_each+abort":
+                            for r_ in list(mctx.acquired_resources):
+                                ctl.release_resource(mctx, r_)
+                            ctl.abort_operation(mctx, reason="manual")
+                        else:
+                            ctl.abort_operation(ctl.active_operations.get("M"), reason="system shutdown")
+                    desc["followups"][-1] = "%s:%s:%s" % (choice, how, req2)
+                    a2 = snap()
+                    for r in ALL:
+                        if b2[r][0] not in (None, mid_) and a2[r] != b2[r] and not (a2[r] == (None, 0) and lock_of(r).allow_preemption and r in req2):
+                            viol("exit-touches-foreign-lock:followup", "operation %s (%s) requesting %s changed %s, owned by %s: %s -> %s" % (
+                                mid_, how, req2, r, b2[r][0], b2[r], a2[r]))
+                            return
+                    leak = [r for r in ALL if a2[r][0] == mid_]
+                    if leak or mid_ in ctl.active_operations:
+                        multi = any(req2.count(r) > 1 for r in leak) and not how.startswith("release_each")
+                        viol("reentrant-hold-leak" if multi else "resource-leak:followup", "follow-up operation %s (%s) requesting %s left %s owned / active=%s" % (
+                            mid_, how, req2, leak, mid_ in ctl.active_operations))
+                        return
                     continue
                 if choice == "holder_release_one":
                     if hctx is not None and "H" in ctl.active_operations and hctx.acquired_resources:
@@ -644,17 +1168,17 @@ def run_case(ctx, n):
                     # a second live operation takes (possibly preempts) a resource and keeps it
                     kctx = system.start_operation("K", "agent-k", priority=9)
                     rk = rng.choice(RES)
-                    got = ctl.acquire_resource(kctx, rk)
+                    got = ctl.acquire_resource(kctx, rid(rk))
                     desc["followups"][-1] = "k_hold:%s:%s" % (rk, got.value)
                     continue
                 if choice in ("op2", "op_again"):
                     oid = "op2" if choice == "op2" else "op"
                     req2 = [rng.choice(SYMS[:3]) for _ in range(rng.randint(0, 3))]
                     ran = []
-                    r2 = system.execute_operation(oid, "agent-b", lambda: ran.append(1) or "x", resources=req2, priority=rng.choice([1, 5, 9]))
+                    r2 = system.execute_operation(oid, "agent-b", lambda: ran.append(1) or "x", resources=[rid(r) for r in req2], priority=rng.choice([1, 5, 9]))
                     a2 = snap()
                     for r in ALL:
-                        if b2[r][0] not in (None, oid) and a2[r] != b2[r] and not (a2[r] == (None, 0) and ctl.resources[r].allow_preemption and r in req2):
+                        if b2[r][0] not in (None, oid) and a2[r] != b2[r] and not (a2[r] == (None, 0) and lock_of(r).allow_preemption and r in req2):
                             viol("exit-touches-foreign-lock:followup", "operation %s requesting %s changed %s, owned by %s: %s -> %s" % (
                                 oid, req2, r, b2[r][0], b2[r], a2[r]))
                             return
@@ -701,7 +1225,7 @@ def run_case(ctx, n):
                         ctx.count("watchdog_expiry_judged")
                         still = [o for o in ("H", "K", "X") if o in ctl.active_operations]
                         if still:
-                            viol("watchdog-timeout-not-enforced", "operation(s) %s exceeded max_operation_time (%s, clock advanced by %s s) and are still active after watchdog.execute" % (still, tmo, adv))
+                            viol("watchdog-timeout-not-enforced", "operation(s) %s exceeded max_operation_time (%s, clock advanced by %s s) and are still active after watchdog.execute" % (still, eff_tmo, adv))
                             return
                 elif choice == "shutdown":
                     shutdown()
@@ -723,17 +1247,17 @@ def run_case(ctx, n):
                 b3 = snap()
                 act3 = sorted(ctl.active_operations)
                 tran = []
-                tres = twin.execute_operation("t", "agent-t", lambda: tran.append(1) or RESULT, resources=["r3", "r1", "r4"], priority=rng.choice([0, 5]))
+                tres = twin.execute_operation("t", "agent-t", lambda: tran.append(1) or RESULT, resources=[rid("r3"), rid("r1"), rid("r4")], priority=rng.choice([0, 5]))
                 tc = twin.controller
-                if any(tc.resources[r].owner == "t" for r in RES + ["r4"]) or "t" in tc.active_operations:
+                if any(tc.resources[rid(r)].owner == "t" for r in RES + ["r4"]) or "t" in tc.active_operations:
                     viol("resource-leak:followup", "operation on the second instance left %s owned / active=%s" % (
-                        [r for r in RES + ["r4"] if tc.resources[r].owner == "t"], "t" in tc.active_operations))
+                        [r for r in RES + ["r4"] if tc.resources[rid(r)].owner == "t"], "t" in tc.active_operations))
                     return
                 if tres.success or tran:
                     viol("work-without-resources:blocked", "operation on the second instance ran (success=%s, work runs %d) although r1 is held there by a live operation of equal or higher priority" % (tres.success, len(tran)))
                     return
                 (tcell.shutdown() if tcell is not None else twin.shutdown())
-                towned = [r for r in RES + ["r4"] if tc.resources[r].owner is not None]
+                towned = [r for r in RES + ["r4"] if tc.resources[rid(r)].owner is not None]
                 if towned or tc.active_operations:
                     viol("resource-leak:shutdown", "after shutdown of the second instance: owned=%s active=%s" % (towned, list(tc.active_operations)))
                     return
@@ -741,6 +1265,9 @@ def run_case(ctx, n):
                     viol("other-instance-touched", "operation + shutdown on the second instance changed the first: %s -> %s, active %s -> %s" % (
                         b3, snap(), act3, sorted(ctl.active_operations)))
                     return
+            if orig is not None and orig_state() != orig_before:
+                viol("other-instance-touched", "the session on a deep copy of the system changed the original: %s -> %s" % (orig_before, orig_state()))
+                return
             # ---- every case ends with a shutdown: nothing registered stays owned, nothing stays active
             ctx.count("final_shutdowns")
             shutdown()
@@ -772,16 +1299,25 @@ def session_case(ctx, k):
     from datetime import timedelta
 
     rng = ctx.rng("session", k)
+    r4 = ctx.rng("session-r4", k)
     nops = SESSION_OPS[ctx.tier]
     clock = VClock()
-    SRES = ["s0", "s1", "s2", "s3"]
+    hostile = k % 2 == 0
+    SRES = ["s0{0}%s{", "s1\n\x00(.*)[\\", "s2\udc80\u00e9%(x)s", "s3}$^|"] if hostile else ["s0", "s1", "s2", "s3"]
+    NOPE = "nope%d{}\udcff" if hostile else "nope"
+    OPFMT = "o%d" if not hostile else "o%d{}\n%%s\udc80"
     TIMEOUT = 3 * 86400.0
-    desc = {"session": k, "operations": nops, "trail": []}
+    tz = [None, "XLO-14", "XLW12", "XNP-5:45"][k % 4]
+    desc = {"session": k, "operations": nops, "trail": [], "TZ": tz, "hostile_names": hostile}
+    if tz is not None:
+        ctx.count("timezone_cases")
+    if hostile:
+        ctx.count("hostile_name_cases")
 
     def viol(mech, what):
         ctx.violation(mech, what, dict(desc, trail=desc["trail"][-12:]))
 
-    with patched(clock, cmod, tmod, wmod):
+    with environment(tz, hostile and not ctx.verbose), patched(clock, cmod, tmod, wmod):
         cell = None
         if k % 3 == 2:
             from operon_ai.cell import IntegratedCell
@@ -822,14 +1358,18 @@ def session_case(ctx, k):
                     ctx.count("session_operations")
                     req = [rng.choice(SRES) for _ in range(rng.randint(0, 3))]
                     if rng.random() < 0.03:
-                        req.insert(rng.randint(0, len(req)), "nope")
+                        req.insert(rng.randint(0, len(req)), NOPE)
                     prio = rng.choice([0, 1, 5, 9, -3, 2 ** 53 + 1, 0.5])
+                    if r4.random() < 0.1:
+                        prio = r4.choice([True, False, Fraction(11, 2), Fraction(-1, 3)])
+                    if i % 2500 == 0:
+                        gc.collect()        # dead requests / closures / contexts are really gone: their addresses get reused by the next ones
                     fault = rng.choice(SFAULTS)
                     # model (preemption decided from the public fields of the live lock)
                     own = {r: b[r][0] for r in SRES}
                     obtained, stopped = set(), None
                     for r in req:
-                        if r == "nope":
+                        if r == NOPE:
                             stopped = "unknown"
                             break
                         lk = ctl.resources[r]
@@ -842,7 +1382,7 @@ def session_case(ctx, k):
                     if stopped == "blocked" or rng.random() < 0.05:
                         oid = "b%d" % (i % 150)         # (blocked ids come from a pool: waiting lists are never pruned by the library)
                     else:
-                        oid = "o%d" % i
+                        oid = OPFMT % i
                         ctx.count("session_distinct_ids")
                     if oid in live or oid in ctl.active_operations:
                         continue
@@ -853,9 +1393,9 @@ def session_case(ctx, k):
 
                     def work():
                         log.append("work")
-                        own_in_work.update({r: ctl.resources[r].owner for r in set(req) if r != "nope"})
+                        own_in_work.update({r: ctl.resources[r].owner for r in set(req) if r != NOPE})
                         if fault == "work_raises":
-                            raise make_exception(i, "work failed")
+                            raise pick_exception(r4, i, "work failed")
                         if fault == "kill_in_work":
                             system.kill_operation(oid, "from inside")
                         return RESULT
@@ -869,10 +1409,17 @@ def session_case(ctx, k):
                         return fault != "validate_false"
                     vf = None if fault == "validate_absent" else validate
                     desc["trail"].append(("op", oid, req, repr(prio), fault))
+                    wf = shaped(pick(r4, SESSION_SHAPES), work, 0)
+                    if vf is not None:
+                        vf = shaped(pick(r4, SESSION_SHAPES), vf, 1)
+                    rsh = pick(r4, RES_SHAPES)
+                    res_arg = shape_resources(rsh, [fresh(r) for r in req])
+                    if rsh != "list":
+                        ctx.count("resources_not_a_list")
                     if cell is not None and rng.random() < 0.5:
-                        success = cell.execute("agent-%d" % (i % 7), oid, work, resources=list(req), validate_fn=vf, priority=prio).success
+                        success = cell.execute("agent-%d" % (i % 7), oid, wf, resources=res_arg, validate_fn=vf, priority=prio).success
                     else:
-                        success = system.execute_operation(oid, "agent-%d" % (i % 7), work, resources=list(req), validate_fn=vf, priority=prio).success
+                        success = system.execute_operation(oid, "agent-%d" % (i % 7), wf, resources=res_arg, validate_fn=vf, priority=prio).success
                     cpf.pop(oid, None)
                     a = snap()
                     path = fault if stopped is None else stopped
@@ -989,6 +1536,96 @@ def session_case(ctx, k):
             viol("resource-leak:shutdown", "long session: after shutdown owned=%s active=%s" % (owned, list(ctl.active_operations)[:5]))
             return
     ctx.nontrivial(("session", k))
+
+
+# ------------------------------------------------------------------------------------------------------------------
+O_PROBE_CASES = {"quick": 1500, "thorough": 5000}
+# public callables the workload calls itself (directly, or - marked "via" - through the entry point that wraps them)
+EXERCISED = {
+    "CoordinationSystem": {"register_resource", "start_operation", "execute_operation", "run_maintenance", "kill_operation", "health", "shutdown"},
+    "CellCycleController": {"register_resource", "start_operation", "advance", "acquire_resource", "release_resource", "release_all_resources",
+                            "check_deadlock", "complete_operation", "abort_operation", "stats"},
+    "ResourceLock": {"is_available", "hold_duration", "pop_next_waiter", "try_acquire", "release"},          # the last two via the controller
+    "Watchdog": {"check", "execute", "manual_kill", "stats"},
+    "PriorityInheritance": {"check_and_boost", "restore_priority", "get_boost", "is_boosted", "clear_all", "stats"},
+    "DependencyGraph": {"add_dependency", "remove_dependency", "remove_all_for_agent", "detect_cycle", "get_blocking_chain", "clear"},
+    "OperationContext": {"set_result", "add_acquired_resource", "enter_phase"},                               # the last two via the controller
+    "Checkpoint": {"evaluate"},
+    "IntegratedCell": {"register_resource", "execute", "run_maintenance", "health", "shutdown"},
+}
+EXERCISED_KW = {
+    "CoordinationSystem.__init__": {"max_operation_time", "starvation_timeout", "progress_timeout", "controller", "priority_manager"},
+    "CoordinationSystem.execute_operation": {"operation_id", "agent_id", "work_fn", "resources", "validate_fn", "priority"},
+    "CoordinationSystem.register_resource": {"resource_id", "allow_preemption"},
+    "CoordinationSystem.start_operation": {"operation_id", "agent_id", "priority"},
+    "CoordinationSystem.kill_operation": {"operation_id", "reason"},
+    "IntegratedCell.execute": {"agent_id", "operation_id", "work_fn", "resources", "validate_fn", "priority"},
+    "IntegratedCell.register_resource": {"resource_id", "allow_preemption"},
+    "IntegratedCell.__init__": {"max_operation_time", "pool_capacity"},
+    "CellCycleController.__init__": {"checkpoints"},
+}
+
+
+def api_inventory(pctx):
+    """informational: public callables / keyword parameters of the anchored classes that no session of this check uses"""
+    import inspect
+    from operon_ai.coordination.system import CoordinationSystem
+    from operon_ai.coordination.controller import CellCycleController, OperationContext, Checkpoint
+    from operon_ai.coordination.types import ResourceLock, DependencyGraph
+    from operon_ai.coordination.watchdog import Watchdog
+    from operon_ai.coordination.priority import PriorityInheritance
+    from operon_ai.cell import IntegratedCell
+    classes = {c.__name__: c for c in (CoordinationSystem, CellCycleController, ResourceLock, Watchdog, PriorityInheritance, DependencyGraph,
+                                       OperationContext, Checkpoint, IntegratedCell)}
+    for cname, cls in classes.items():
+        for name in dir(cls):
+            if name.startswith("_"):
+                continue
+            attr = inspect.getattr_static(cls, name)
+            if not (callable(attr) or isinstance(attr, (property, staticmethod, classmethod))):
+                continue
+            pctx.count("public_api_seen")
+            if name not in EXERCISED.get(cname, ()):
+                pctx.count("api_not_exercised:%s.%s" % (cname, name))
+    for key, used in EXERCISED_KW.items():
+        cname, meth = key.split(".")
+        try:
+            params = [p_ for p_ in inspect.signature(getattr(classes[cname], meth)).parameters if p_ != "self"]
+        except (AttributeError, TypeError, ValueError):
+            continue
+        for p_ in params:
+            if p_ not in used:
+                pctx.count("kwarg_not_exercised:%s(%s)" % (key, p_))
+
+
+def extra_parent(pctx):
+    try:
+        api_inventory(pctx)
+    except Exception as e:      # informational only
+        pctx.notes.append("api inventory failed: %r" % (e,))
+    # ---- the refusal obligations once more in an interpreter that strips assert statements
+    cmd = [sys.executable, "-O", "-B", "-m", "rv.c14_o_child", pctx.tier, str(pctx.seed), str(O_PROBE_CASES[pctx.tier])]
+    try:
+        cp = subprocess.run(cmd, cwd=core.VERIF, capture_output=True, text=True, timeout=900)
+    except (OSError, subprocess.TimeoutExpired) as e:
+        pctx.inconclusive("the python -O probe did not finish: %r" % (e,))
+        return
+    line = [l for l in cp.stdout.splitlines() if l.startswith("C14-O-RESULT ")]
+    if cp.returncode != 0 or not line:
+        pctx.inconclusive("the python -O probe failed (rc=%s): %s" % (cp.returncode, (cp.stderr or cp.stdout)[-800:]))
+        return
+    part = json.loads(line[-1][len("C14-O-RESULT "):])
+    if part.get("optimize", 0) < 1:
+        pctx.inconclusive("the python -O probe did not run optimized")
+        return
+    pctx.count("optimized_interpreter_cases", part["evaluations"])
+    pctx.count("optimized_interpreter_work_runs", part["counters"].get("work_runs_sampled", 0))
+    pctx.count("optimized_interpreter_blocked", part["counters"].get("blocked_acquisitions", 0))
+    for mech, cnt in part["violation_counts"].items():
+        pctx.violation_counts[mech] = pctx.violation_counts.get(mech, 0) + cnt
+    for v in part["violations"]:
+        v["what"] = "[python -O] " + v["what"]
+        pctx.violations.append(v)
 
 
 if __name__ == "__main__":
